@@ -188,3 +188,33 @@ PROPS["C04"] = dict(
          "thread-local statics, and the Vfs feeds the parser only the new text and configuration.",
     note="Sufficient-condition argument: a new channel is reported even if it were transparent. Trusted: rowan's cache transparency, "
          "external crates' global state (rust-i18n, log) is configuration.")
+
+PROPS["C31"] = dict(
+    module="c31", func="run", level="other", crates=["emmylua_code_analysis"],
+    technique="panic-surface audit: call-graph reachability + type-resolved panic-site enumeration + dominator-based guard recognition + audited table",
+    text="Decides that no undischarged panic-capable construct sits on the configuration loading path: every unwrap/expect, "
+         "index/slice and serde_json::Value index reachable from the loading API is guarded (recognised idiom), covered by API "
+         "knowledge, or listed in the audited table with its invariant. Found the two panics quoted in the property (both fixed).",
+    note="Audit-style: proves nothing about sites in the audited table beyond the recorded reason; panics inside external crates "
+         "(luars, serde, regex) and sandbox resource limits are outside. A new unguarded site is reported even if it happens to be safe.")
+
+PROPS["C32"] = dict(
+    module="c32", func="run", level="other", crates=["emmylua_code_analysis"],
+    technique="hash-order taint of loop iterators that drive keyed writes into the merged JSON configuration",
+    text="Decides the determinism clause: no loop that writes the resulting configuration iterates in hash order, so colliding "
+         "keys (flat vs nested spelling, value vs prefix) resolve the same way in every run. Found the hash-ordered rebuild in "
+         "to_emmyrc_json (fixed together with the C31 panic).",
+    note="'Later file wins whichever spelling each file uses' and array de-duplication are value-level semantics and not decided.")
+
+PROPS["C33"] = dict(
+    module="c33c35", func="run_c33", level="other", crates=["emmylua_code_analysis"],
+    technique="hash-order taint of module-lookup return values",
+    text="Decides the determinism clause of require resolution: whichever module a lookup returns, the choice among candidates "
+         "never derives from hash-iteration order.",
+    note="Pattern matching, module-map rewriting, exact-before-fuzzy precedence and removal are not decided.")
+PROPS["C35"] = dict(
+    module="c33c35", func="run_c35", level="other", crates=None,
+    technique="hash-order taint of exported lists + presence of the main-workspace filter",
+    text="Decides the reproducibility and scope clauses of the JSON documentation export: no exported list carries hash-iteration "
+         "order, and each top-level list is filtered to the main workspace.",
+    note="'Exactly once' and completeness of the documentation are not decided.")
